@@ -1,5 +1,6 @@
 import Driver.Common
 import Rpki.Model.XmlDoc
+import Rpki.Model.PubMsg
 namespace Driver.C11
 open Driver Rpki.Xml Rpki.XmlDoc
 
@@ -36,8 +37,77 @@ def docCheck (xml : List Nat) : Option String :=
     else if writeDoc t = xml ∨ hasBlankLine xml then none
     else some "re-writing the tree read by the reference reader gives other bytes"
 
+
+/-! ### RFC 8181 messages described field by field (`pubx`) -/
+
+def unhx (s : String) : Option (List Nat) := if s = "e" then some [] else hexB s
+def parseTag (s : String) : Option (Option (List Nat)) := if s = "~" then some none else (unhx s).map some
+
+def parsePdu (e : String) : Option Rpki.PubMsg.Pdu :=
+  match e.splitOn "," with
+  | ["P", t, u, c] => do some (.publish (← parseTag t) (← unhx u) (← unhx c))
+  | ["U", t, u, c, h] => do some (.update (← parseTag t) (← unhx u) (← unhx c) (← unhx h))
+  | ["W", t, u, h] => do some (.withdraw (← parseTag t) (← unhx u) (← unhx h))
+  | _ => none
+
+def parseMsg (toks : List String) : Option Rpki.PubMsg.Msg :=
+  match toks with
+  | ["lq"] => some .listQuery
+  | ["ok"] => some .success
+  | ["delta", es] => if es = "-" then some (.delta []) else ((es.splitOn ";").mapM parsePdu).map .delta
+  | ["lr", es] =>
+    if es = "-" then some (.listReply []) else
+    ((es.splitOn ";").mapM fun (e : String) => match e.splitOn "," with
+      | [u, h] => do some (⟨← unhx u, ← unhx h⟩ : Rpki.PubMsg.ListEl)
+      | _ => none).map .listReply
+  | ["er", cs] => if cs = "-" then some (.errors []) else ((cs.splitOn ";").mapM String.toNat?).map .errors
+  | _ => none
+
+def hxOut (b : List Nat) : String := if b.isEmpty then "e" else toHex (b.map UInt8.ofNat)
+def showTag : Option (List Nat) → String
+  | none => "~"
+  | some t => hxOut t
+
+def describePdu : Rpki.PubMsg.Pdu → String
+  | .publish t u c => s!"P,{showTag t},{hxOut u},{hxOut c}"
+  | .update t u c h => s!"U,{showTag t},{hxOut u},{hxOut c},{hxOut h}"
+  | .withdraw t u h => s!"W,{showTag t},{hxOut u},{hxOut h}"
+
+def joinOr (l : List String) : String := if l.isEmpty then "-" else ";".intercalate l
+
+/-- the same grammar as the op line, with `:` between the two tokens -/
+def describe : Rpki.PubMsg.Msg → String
+  | .listQuery => "lq"
+  | .success => "ok"
+  | .delta es => s!"delta:{joinOr (es.map describePdu)}"
+  | .listReply es => s!"lr:{joinOr (es.map fun e => s!"{hxOut e.uri},{hxOut e.hash}")}"
+  | .errors cs => s!"er:{joinOr (cs.map toString)}"
+
+def handlePubx (toks : List String) (impl : String) : Verdict :=
+  match parseMsg toks with
+  | none => badOp "pubx args"
+  | some m =>
+    let doc := Rpki.PubMsg.write m
+    -- the reference reader on the model's document; the property wants the message itself back, except for the
+    -- two representation choices `norm` names (absent tag, error reply without reports)
+    let modelBack := match Rpki.PubMsg.read doc with | some b => describe b | none => "err"
+    let want := describe (Rpki.PubMsg.norm m)
+    { model := some s!"{hexN doc} {modelBack}",
+      oracle :=
+        match impl.splitOn " " with
+        | [h, back] =>
+          (match hexB h with
+          | none => some "unreadable"
+          | some x =>
+            if x ≠ doc then some "the document written for an API-made publication message is not the RFC 8181 document for its fields (element or attribute names, order, namespace, version, escaping or Base64)"
+            else if back = "err" then some "the library rejects the document it wrote for an API-made message"
+            else if back ≠ want then some s!"the written publication message parses back to other field values"
+            else none)
+        | _ => if impl = "write-err" then some "writing failed" else some "unreadable result" }
+
 def handle (toks : List String) (impl : String) : Verdict :=
   match toks with
+  | "pubx" :: rest => handlePubx rest impl
   | ["xml", kind, origin, _] =>
     if impl = "panic" then { oracle := some s!"the {kind} parser or writer panicked" }
     else if impl = "err" then
